@@ -26,14 +26,14 @@ func init() {
 }
 
 type vbiEncoder struct {
-	fn       *ssa.Function
-	radix    int64 // divisor
-	lowMask  int64 // mask of the bits emitted per byte
-	contBit  int64
-	quot     *ssa.BinOp
-	why      string
-	contOK   bool
-	contWhy  string
+	fn      *ssa.Function
+	radix   int64 // divisor
+	lowMask int64 // mask of the bits emitted per byte
+	contBit int64
+	quot    *ssa.BinOp
+	why     string
+	contOK  bool
+	contWhy string
 }
 
 // findVBIEncoder: a fill-family function with a divisive loop.
@@ -207,7 +207,7 @@ func checkC15(p *Prog, c *Check) {
 			continue
 		}
 		var cands []ssa.Value
-		if ph, ok := stripConvs(st.Val).(*ssa.Phi); ok {
+		if ph, ok := p.stripNonNarrowing(st.Val).(*ssa.Phi); ok {
 			cands = ph.Edges
 		} else {
 			cands = []ssa.Value{st.Val}
